@@ -310,6 +310,94 @@ func Script(limit int, xs []int) (int, int, int, bool, int) {
 	return k, a, b, ok, s.Size()
 }
 
+// ---- function-typed parameters / fields and in-out slice parameters (TransSpec.InOut; trans_func.go) ----------------
+
+// Exch writes its slice parameter in place: it is handed back to the caller.
+func Exch[T any](s []T, i, j int) { s[i], s[j] = s[j], s[i] }
+
+// NoExch has the same type and writes nothing: used as a value it needs an adapter.
+func NoExch[T any](s []T, i, j int) {}
+
+// ExchIf: a hook with a result.
+func ExchIf(s []int, i, j int) bool {
+	if s[i] > s[j] {
+		s[i], s[j] = s[j], s[i]
+		return true
+	}
+	return false
+}
+
+// Bubble calls a pure function value and a slice-writing function value; s comes back to the caller.
+func Bubble[T any](s []T, less func(T, T) bool, exch func([]T, int, int)) int {
+	n := 0
+	for i := 0; i < len(s); i++ {
+		for j := len(s) - 1; j > i; j-- {
+			if less(s[j], s[j-1]) {
+				exch(s, j, j-1)
+				n++
+			}
+		}
+	}
+	return n
+}
+
+// DryRun passes its parameter on to an in-out position, with a package function as the hook (adapter).
+func DryRun(s []int, less func(int, int) bool) int { return Bubble(s, less, NoExch[int]) }
+
+// Pass: a function value with a result that also writes the slice.
+func Pass(s []int, step func([]int, int, int) bool) int {
+	n := 0
+	for i := 0; i+1 < len(s); i++ {
+		if step(s, i, i+1) && n >= 0 {
+			n++
+		}
+	}
+	return n
+}
+
+// FirstLast: pure function value inside an andb / orb (no short circuit needed) and with an index operand (needed).
+func FirstLast(s []int, less func(int, int) bool, a, b int) bool {
+	return less(a, b) || len(s) > 0 && less(s[0], s[len(s)-1])
+}
+
+// Sorter: a struct with a function-typed field; the method passes a field to an in-out position.
+type Sorter[T any] struct {
+	data   []T
+	before func(T, T) bool
+	swaps  int
+}
+
+func (b *Sorter[T]) Sort() int {
+	n := Bubble(b.data, b.before, Exch[T])
+	b.swaps += n
+	return b.swaps
+}
+
+func (b *Sorter[T]) Min() (T, bool) {
+	var zero T
+	if len(b.data) == 0 {
+		return zero, false
+	}
+	m := b.data[0]
+	for _, v := range b.data {
+		if b.before(v, m) {
+			m = v
+		}
+	}
+	return m, true
+}
+
+// SortWith / MinWith: native drivers for the two methods (not translated)
+func SortWith(s []int, before func(int, int) bool, swaps int) int {
+	b := Sorter[int]{data: s, before: before, swaps: swaps}
+	return b.Sort()
+}
+
+func MinWith(s []int, before func(int, int) bool) (int, bool) {
+	b := Sorter[int]{data: s, before: before}
+	return b.Min()
+}
+
 // ---- [BitsCode] uint64 words: int(u >> c) / int(u & c), math/bits.OnesCountN, a struct literal as a return operand ----
 
 type Words struct {
